@@ -100,16 +100,19 @@ Definition ledger_ok (e : depoch) : Prop :=
 Definition expired_empty (s : dstate) : Prop :=
   Forall (fun e => de_id e <= Z.of_nat (length (d_epochs s)) - d_grace s -> de_avail e = None) (d_epochs s).
 
-Record Inv (s : dstate) : Prop := mkInv {
+(* k = what plain transfers (DStray) have added to the balance so far: the balance is EXACTLY the sum of the available
+   ledgers plus k, and k >= 0 — so it is always at least that sum *)
+Record Inv (k : Z) (s : dstate) : Prop := mkInv {
   inv_ids : ids_exact (d_epochs s);
   inv_ledger : Forall ledger_ok (d_epochs s);
-  inv_bal : d_bal s = sum_avail (d_epochs s);
+  inv_bal : d_bal s = sum_avail (d_epochs s) + k;
   inv_grace : 1 <= d_grace s;
-  inv_expired : expired_empty s
+  inv_expired : expired_empty s;
+  inv_k : 0 <= k
 }.
 
-Lemma inv_init g : 1 <= g -> Inv (dinit g).
-Proof. intro G. constructor; cbn; auto; try reflexivity. constructor. Qed.
+Lemma inv_init g : 1 <= g -> Inv 0 (dinit g).
+Proof. intro G. constructor; cbn; auto; try reflexivity; try lia. constructor. Qed.
 
 Lemma cur_epoch_id s : ids_exact (d_epochs s) -> e_id (cur_epoch s) = Z.of_nat (length (d_epochs s)).
 Proof.
@@ -132,8 +135,8 @@ Proof.
 Qed.
 
 (* what an accepted NewEpoch does to the ledgers *)
-Lemma new_epoch_spec c now s ok fee s' :
-  Inv s -> 0 <= fee -> new_epoch c now s ok fee = Ok s' ->
+Lemma new_epoch_spec k c now s ok fee s' :
+  Inv k s -> 0 <= fee -> new_epoch c now s ok fee = Ok s' ->
   let g := Z.to_nat (d_grace s) in
   d_cursor s' = d_cursor s /\ d_grace s' = d_grace s /\ d_bal s' = d_bal s + fee /\
   exists ne, de_id ne = Z.of_nat (S (length (d_epochs s))) /\ de_avail ne = de_total ne /\ de_claimed ne = None /\
@@ -145,9 +148,9 @@ Lemma new_epoch_spec c now s ok fee s' :
 Proof.
   intros I F H. cbn zeta. unfold new_epoch in H.
   apply bind_ok in H as [e' [Hc H]]. apply dcreate_ok in Hc as (Hid & _ & _ & _).
-  rewrite (cur_epoch_id s (inv_ids s I)) in Hid.
+  rewrite (cur_epoch_id s (inv_ids k s I)) in Hid.
   set (g := Z.to_nat (d_grace s)) in *.
-  assert (G1 : (1 <= g)%nat) by (pose proof (inv_grace s I); lia).
+  assert (G1 : (1 <= g)%nat) by (pose proof (inv_grace k s I); lia).
   assert (OT : oz (if 0 <? fee then Some fee else None) = fee).
   { destruct (0 <? fee) eqn:E; cbn; [reflexivity | apply Z.ltb_ge in E; lia]. }
   destruct (length (firstn g (d_epochs s)) =? g)%nat eqn:EL.
@@ -201,19 +204,19 @@ Proof.
   rewrite (ids_exact_nth _ _ _ X N). assert ((i < length l)%nat) by (apply nth_error_Some; congruence). lia.
 Qed.
 
-Lemma new_epoch_inv c now s ok fee s' :
-  Inv s -> 0 <= fee -> new_epoch c now s ok fee = Ok s' -> Inv s'.
+Lemma new_epoch_inv k c now s ok fee s' :
+  Inv k s -> 0 <= fee -> new_epoch c now s ok fee = Ok s' -> Inv k s'.
 Proof.
-  intros I F H. pose proof (new_epoch_spec _ _ _ _ _ _ I F H) as SP. cbn zeta in SP.
+  intros I F H. pose proof (new_epoch_spec _ _ _ _ _ _ _ I F H) as SP. cbn zeta in SP.
   destruct SP as (Hc & Hg & Hb & ne & Nid & Nav & Ncl & Full & NotFull).
   set (g := Z.to_nat (d_grace s)) in *. set (l := d_epochs s) in *.
-  pose proof (inv_grace s I) as G1. pose proof (inv_ids s I) as X. fold l in X.
+  pose proof (inv_grace k s I) as G1. pose proof (inv_ids k s I) as X. fold l in X.
   assert (Gz : Z.of_nat g = d_grace s) by (unfold g; lia).
   destruct (le_lt_dec g (length l)) as [LE|LT].
   - destruct (Full LE) as (x & N & OT & E). clear Full NotFull.
     set (x' := mkDE (de_id x) (de_start x) (de_total x) None (de_claimed x)) in *.
     assert (Ix : In x l) by (eapply nth_error_In; eauto).
-    assert (Lx : ledger_ok x) by (pose proof (inv_ledger s I) as FL; rewrite Forall_forall in FL; apply FL; auto).
+    assert (Lx : ledger_ok x) by (pose proof (inv_ledger k s I) as FL; rewrite Forall_forall in FL; apply FL; auto).
     assert (IDx : de_id x = Z.of_nat (length l) + 1 - Z.of_nat g).
     { rewrite (ids_exact_nth _ _ _ X N). lia. }
     assert (AVx : 0 <= oz (de_avail x)) by (destruct Lx as (_ & _ & A); destruct (de_avail x); cbn; [tauto | lia]).
@@ -223,29 +226,31 @@ Proof.
     + constructor.
       * unfold ledger_ok. rewrite Ncl, Nav. cbn [oz]. repeat split; try lia.
         destruct (de_total ne) eqn:T; cbn [oz] in *; [lia | exact Logic.I].
-      * apply Forall_esave; [apply (inv_ledger s I)|]. unfold ledger_ok, x'. cbn. destruct Lx as (A & B & _). auto.
+      * apply Forall_esave; [apply (inv_ledger k s I)|]. unfold ledger_ok, x'. cbn. destruct Lx as (A & B & _). auto.
     + unfold sum_avail. cbn [map sumZ]. rewrite (sum_esave (fun e => oz (de_avail e)) x x' l); auto.
-      * rewrite Nav, OT. cbn [x' de_avail oz]. pose proof (inv_bal s I) as B. unfold sum_avail in B. fold l in B. lia.
+      * rewrite Nav, OT. cbn [x' de_avail oz]. pose proof (inv_bal k s I) as B. unfold sum_avail in B. fold l in B. lia.
       * apply ids_exact_nodup; auto.
     + exact G1.
     + unfold expired_empty. rewrite E. cbn [length]. rewrite esave_length. constructor.
       * intro L. rewrite Nid in L. lia.
       * apply Forall_forall. intros y Iy L.
         apply (esave_in_strong _ _ _ (ids_exact_nodup _ X)) in Iy as [->|[Iy Ne]]; [reflexivity|].
-        pose proof (inv_expired s I) as EX. unfold expired_empty in EX. fold l in EX. rewrite Forall_forall in EX.
+        pose proof (inv_expired k s I) as EX. unfold expired_empty in EX. fold l in EX. rewrite Forall_forall in EX.
         cbn [x' de_id] in Ne. apply EX; auto. lia.
+    + apply (inv_k k s I).
   - destruct (NotFull LT) as (OT & E). clear Full NotFull.
     constructor; rewrite ?E, ?Hg, ?Hb.
     + unfold ids_exact, ids. cbn [map length down]. f_equal; [exact Nid | exact X].
-    + constructor; [|apply (inv_ledger s I)].
+    + constructor; [|apply (inv_ledger k s I)].
       unfold ledger_ok. rewrite Ncl, Nav. cbn [oz]. repeat split; try lia.
       destruct (de_total ne) eqn:T; cbn [oz] in *; [lia | exact Logic.I].
-    + unfold sum_avail. cbn [map sumZ]. rewrite Nav, OT. pose proof (inv_bal s I) as B. unfold sum_avail in B. fold l in B. lia.
+    + unfold sum_avail. cbn [map sumZ]. rewrite Nav, OT. pose proof (inv_bal k s I) as B. unfold sum_avail in B. fold l in B. lia.
     + exact G1.
     + unfold expired_empty. rewrite E. cbn [length]. apply Forall_forall. intros y Iy L. exfalso.
       assert (1 <= de_id y).
       { destruct Iy as [<-|Iy]; [rewrite Nid; lia | apply (ids_exact_in _ _ X Iy)]. }
       lia.
+    + apply (inv_k k s I).
 Qed.
 
 (* ---- Claim ------------------------------------------------------------------------------------------- *)
@@ -383,9 +388,9 @@ Proof.
 Qed.
 
 (* an accepted Claim *)
-Lemma claim_spec s who fb shares s' p :
-  Inv s -> shares_wf shares -> claim s who fb shares = Ok (s', p) ->
-  Inv s' /\ 0 <= p /\
+Lemma claim_spec k s who fb shares s' p :
+  Inv k s -> shares_wf shares -> claim s who fb shares = Ok (s', p) ->
+  Inv k s' /\ 0 <= p /\
   p = sum_avail (d_epochs s) - sum_avail (d_epochs s') /\
   p = sum_claimed (d_epochs s') - sum_claimed (d_epochs s) /\
   d_bal s' = d_bal s - p /\ d_grace s' = d_grace s /\
@@ -399,32 +404,33 @@ Proof.
   destruct (claimable s who fb) as [|newest rest] eqn:EC; [discriminate|].
   apply bind_ok in H as [[all' acc'] [HL H]]. cbn [fst snd] in H.
   apply bind_ok in H as [u [HB H]]. inversion H; subst; clear H.
-  pose proof (inv_ids s I) as X. pose proof (ids_exact_nodup _ X) as ND.
+  pose proof (inv_ids k s I) as X. pose proof (ids_exact_nodup _ X) as ND.
   assert (NDc : NoDup (ids (newest :: rest))) by (rewrite <- EC; apply claimable_nodup; auto).
   assert (FIc : Forall (fun e => In e (d_epochs s)) (newest :: rest)).
   { apply Forall_forall. intros e Ie. rewrite <- EC in Ie. apply claimable_in in Ie as [Ie _]. eapply in_firstn_in; eauto. }
-  destruct (claim_loop_spec shares W _ _ _ _ _ ND NDc FIc (inv_ledger s I) HL) as (I1 & I2 & I3 & I4 & I5 & I6 & I7 & I8).
-  pose proof (inv_grace s I) as G1.
+  destruct (claim_loop_spec shares W _ _ _ _ _ ND NDc FIc (inv_ledger k s I) HL) as (I1 & I2 & I3 & I4 & I5 & I6 & I7 & I8).
+  pose proof (inv_grace k s I) as G1.
   assert (WIN : forall e, In e (newest :: rest) -> Z.of_nat (length (d_epochs s)) - d_grace s < de_id e).
   { intros e Ie. rewrite <- EC in Ie. apply claimable_in in Ie as [Ie _].
     pose proof (window_id _ _ _ X Ie). lia. }
   cbn [d_epochs d_bal d_grace d_cursor]. split; [|repeat split; auto; try lia].
   - constructor; cbn [d_epochs d_bal d_grace d_cursor]; auto.
     + unfold ids_exact. rewrite I1, I2. exact X.
-    + rewrite I4. pose proof (inv_bal s I). lia.
+    + rewrite I4. pose proof (inv_bal k s I). lia.
     + unfold expired_empty. cbn [d_epochs d_grace]. rewrite I2. apply Forall_forall. intros y Iy L.
       rewrite Forall_forall in I7. destruct (I7 y Iy) as [Q|[Q _]].
-      * pose proof (inv_expired s I) as EX. unfold expired_empty in EX. rewrite Forall_forall in EX. auto.
+      * pose proof (inv_expired k s I) as EX. unfold expired_empty in EX. rewrite Forall_forall in EX. auto.
       * unfold ids in Q. apply in_map_iff in Q as (e & Eid & Ie). specialize (WIN e Ie). lia.
+    + apply (inv_k k s I).
   - exists newest, rest. repeat split; auto.
     + pose proof (claimable_sorted s who fb X) as S. rewrite EC in S. inversion S; subst.
       destruct H as [<-|H]; [lia|]. rewrite Forall_forall in H3. specialize (H3 e H). lia.
     + rewrite <- EC in H. apply claimable_in in H. tauto.
 Qed.
 
-Lemma set_grace_spec s admin g s' :
-  Inv s -> set_grace s admin g = Ok s' ->
-  Inv s' /\ admin = true /\ d_grace s <= g <= Params.MAX_GRACE_PERIOD /\ d_grace s' = g /\
+Lemma set_grace_spec k s admin g s' :
+  Inv k s -> set_grace s admin g = Ok s' ->
+  Inv k s' /\ admin = true /\ d_grace s <= g <= Params.MAX_GRACE_PERIOD /\ d_grace s' = g /\
   d_epochs s' = d_epochs s /\ d_cursor s' = d_cursor s /\ d_bal s' = d_bal s.
 Proof.
   intros I H. unfold set_grace in H.
@@ -433,11 +439,12 @@ Proof.
   apply Z.leb_le in A, B.
   apply bind_ok in H as [u3 [H3 H]]. apply ensure_ok in H3. apply Z.leb_le in H3.
   inversion H; subst; clear H. cbn. repeat split; auto; try lia.
-  - apply (inv_ids s I).
-  - apply (inv_ledger s I).
-  - apply (inv_bal s I).
-  - unfold expired_empty. cbn. pose proof (inv_expired s I) as EX. unfold expired_empty in EX.
+  - apply (inv_ids k s I).
+  - apply (inv_ledger k s I).
+  - apply (inv_bal k s I).
+  - unfold expired_empty. cbn. pose proof (inv_expired k s I) as EX. unfold expired_empty in EX.
     eapply Forall_impl; [|exact EX]. cbn. intros e Q L. apply Q. lia.
+  - apply (inv_k k s I).
 Qed.
 
 (* ---- histories ------------------------------------------------------------------------------------------ *)
@@ -446,26 +453,56 @@ Definition dop_wf (o : dop) : Prop :=
   | DNewEpoch _ fee => 0 <= fee
   | DClaim _ _ shares => shares_wf shares
   | DSetGrace _ _ => True
+  | DStray _ => True
   end.
 Definition dhist_wf (h : list dsevent) : Prop := Forall (fun e => dop_wf (snd e)) h.
 
-Lemma dstep_inv c now s o s' f : Inv s -> dop_wf o -> dstep c now s o = Ok (s', f) -> Inv s'.
+Lemma dstep_inv k c now s o s' f : Inv k s -> dop_wf o -> dstep c now s o = Ok (s', f) -> Inv (k + stray_of f) s'.
 Proof.
-  intros I W H. destruct o as [ok fee|who fb shares|admin g]; cbn [dstep] in H.
-  - apply bind_ok in H as [s1 [H1 H]]. inversion H; subst. eapply new_epoch_inv; eauto.
-  - apply bind_ok in H as [[s1 p] [H1 H]]. inversion H; subst. cbn [fst]. eapply claim_spec; eauto.
-  - apply bind_ok in H as [s1 [H1 H]]. inversion H; subst. eapply set_grace_spec; eauto.
+  intros I W H. destruct o as [ok fee|who fb shares|admin g|x]; cbn [dstep] in H.
+  - apply bind_ok in H as [s1 [H1 H]]. inversion H; subst. cbn [stray_of]. rewrite Z.add_0_r. eapply new_epoch_inv; eauto.
+  - apply bind_ok in H as [[s1 p] [H1 H]]. inversion H; subst. cbn [fst stray_of]. rewrite Z.add_0_r. eapply claim_spec; eauto.
+  - apply bind_ok in H as [s1 [H1 H]]. inversion H; subst. cbn [stray_of]. rewrite Z.add_0_r. eapply set_grace_spec; eauto.
+  - apply bind_ok in H as [u [H1 H]]. apply ensure_ok in H1. apply Z.ltb_lt in H1. inversion H; subst. cbn [stray_of].
+    constructor; cbn [d_epochs d_bal d_grace d_cursor].
+    + apply (inv_ids k s I).
+    + apply (inv_ledger k s I).
+    + pose proof (inv_bal k s I). lia.
+    + apply (inv_grace k s I).
+    + apply (inv_expired k s I).
+    + pose proof (inv_k k s I). lia.
 Qed.
 
-Lemma dsrun_inv_from c h : forall s, Inv s -> dhist_wf h -> Inv (fold_left (dshstep c) h s).
+Lemma dsrun_inv_from c h : forall k s, Inv k s -> dhist_wf h ->
+  Inv (k + strays (dseffects c s h)) (fold_left (dshstep c) h s).
 Proof.
-  induction h as [|e r IH]; intros s I W; cbn [fold_left]; auto. inversion W; subst.
-  apply IH; auto. unfold dshstep. destruct (dstep c (fst e) s (snd e)) as [[s' f]| |] eqn:E; auto.
-  eapply dstep_inv; eauto.
+  induction h as [|e r IH]; intros k s I W; cbn [fold_left dseffects].
+  - unfold strays. cbn. rewrite Z.add_0_r. exact I.
+  - inversion W; subst. unfold dshstep at 2.
+    destruct (dstep c (fst e) s (snd e)) as [[s' f]| |] eqn:E; auto.
+    unfold strays. cbn [map sumZ]. fold (strays (dseffects c s' r)). rewrite Z.add_assoc.
+    apply IH; auto. eapply dstep_inv; eauto.
 Qed.
 
-Theorem distributor_inv c g h : 1 <= g -> dhist_wf h -> Inv (dsrun c g h).
-Proof. intros G W. apply dsrun_inv_from; auto. apply inv_init; auto. Qed.
+Theorem distributor_inv c g h : 1 <= g -> dhist_wf h -> Inv (strays (dseffects c (dinit g) h)) (dsrun c g h).
+Proof. intros G W. apply (dsrun_inv_from c h 0 (dinit g)); auto. apply inv_init; auto. Qed.
+
+Lemma strays_nonneg c g h : 1 <= g -> dhist_wf h -> 0 <= strays (dseffects c (dinit g) h).
+Proof. intros G W. apply (inv_k _ _ (distributor_inv c g h G W)). Qed.
+
+(* without plain transfers the balance is exactly the sum of the available ledgers *)
+Definition is_stray (o : dop) : bool := match o with DStray _ => true | _ => false end.
+Lemma no_stray_effects c h : forall s, forallb (fun e => negb (is_stray (snd e))) h = true -> strays (dseffects c s h) = 0.
+Proof.
+  induction h as [|e r IH]; intros s F; cbn [dseffects]; [reflexivity|].
+  cbn [forallb] in F. apply andb_true_iff in F as [F1 F2].
+  destruct (dstep c (fst e) s (snd e)) as [[s' f]| |] eqn:E; auto.
+  unfold strays. cbn [map sumZ]. fold (strays (dseffects c s' r)). rewrite IH by auto.
+  destruct (snd e) as [ok fee|who fb shares|admin g|x]; cbn [is_stray negb] in F1; try discriminate; cbn [dstep] in E.
+  - apply bind_ok in E as [s1 [_ E]]. inversion E; subst. reflexivity.
+  - apply bind_ok in E as [s1 [_ E]]. inversion E; subst. reflexivity.
+  - apply bind_ok in E as [s1 [_ E]]. inversion E; subst. reflexivity.
+Qed.
 
 (* ---- an address is paid at most once per epoch ---------------------------------------------------------- *)
 Definition paid_ids_of (who : Z) (f : deffect) : list Z :=
@@ -498,19 +535,19 @@ Definition Paid (who : Z) (s : dstate) (pre : list deffect) : Prop :=
   NoDup (paid_ids who pre) /\
   forall i, In i (paid_ids who pre) -> exists cu, cfind who (d_cursor s) = Some cu /\ i <= cu.
 
-Lemma paid_step c who now s o s' f pre :
-  Inv s -> dop_wf o -> dstep c now s o = Ok (s', f) -> Paid who s pre -> Paid who s' (pre ++ [f]).
+Lemma paid_step k c who now s o s' f pre :
+  Inv k s -> dop_wf o -> dstep c now s o = Ok (s', f) -> Paid who s pre -> Paid who s' (pre ++ [f]).
 Proof.
   intros I W H [ND LE]. unfold Paid, paid_ids in *. rewrite flat_map_app. cbn [flat_map]. rewrite app_nil_r.
-  destruct o as [ok fee|w fb shares|admin g]; cbn [dstep] in H.
+  destruct o as [ok fee|w fb shares|admin g|x]; cbn [dstep] in H.
   - apply bind_ok in H as [s1 [H1 H]]. inversion H; subst. cbn [paid_ids_of]. rewrite app_nil_r.
-    destruct (new_epoch_spec _ _ _ _ _ _ I W H1) as (Hc & _). rewrite Hc. auto.
+    destruct (new_epoch_spec _ _ _ _ _ _ _ I W H1) as (Hc & _). rewrite Hc. auto.
   - apply bind_ok in H as [[s1 p] [H1 H]]. inversion H; subst. cbn [fst snd paid_ids_of].
-    destruct (claim_spec _ _ _ _ _ _ I W H1) as (_ & _ & _ & _ & _ & _ & _ & newest & rest & EC & CU & FA).
+    destruct (claim_spec _ _ _ _ _ _ _ I W H1) as (_ & _ & _ & _ & _ & _ & _ & newest & rest & EC & CU & FA).
     destruct (w =? who) eqn:Ew.
     + apply Z.eqb_eq in Ew; subst w. rewrite CU. split.
       * apply NoDup_app_intro; auto.
-        -- apply (claimable_nodup s who fb). apply ids_exact_nodup, (inv_ids s I).
+        -- apply (claimable_nodup s who fb). apply ids_exact_nodup, (inv_ids k s I).
         -- intros i Ii Q. apply in_map_iff in Q as (e & <- & Ie). destruct (FA e Ie) as (_ & CO & _).
            destruct (LE _ Ii) as (cu & Hcu & Lcu). unfold cursor_ok in CO. rewrite Hcu in CO. lia.
       * intros i Ii. exists (de_id newest). rewrite cfind_cset_same. split; auto.
@@ -522,17 +559,18 @@ Proof.
     + apply Z.eqb_neq in Ew. rewrite app_nil_r, CU. split; auto.
       intros i Ii. rewrite cfind_cset_other by auto. auto.
   - apply bind_ok in H as [s1 [H1 H]]. inversion H; subst. cbn [paid_ids_of]. rewrite app_nil_r.
-    destruct (set_grace_spec _ _ _ _ I H1) as (_ & _ & _ & _ & _ & Hc & _). rewrite Hc. auto.
+    destruct (set_grace_spec _ _ _ _ _ I H1) as (_ & _ & _ & _ & _ & Hc & _). rewrite Hc. auto.
+  - apply bind_ok in H as [u [H1 H]]. inversion H; subst. cbn [paid_ids_of d_cursor]. rewrite app_nil_r. auto.
 Qed.
 
-Lemma paid_run c who h : forall s pre, Inv s -> dhist_wf h -> Paid who s pre ->
+Lemma paid_run c who h : forall k s pre, Inv k s -> dhist_wf h -> Paid who s pre ->
   NoDup (paid_ids who (pre ++ dseffects c s h)).
 Proof.
-  induction h as [|e r IH]; intros s pre I W P; cbn [dseffects].
+  induction h as [|e r IH]; intros k s pre I W P; cbn [dseffects].
   - rewrite app_nil_r. apply P.
-  - inversion W; subst. destruct (dstep c (fst e) s (snd e)) as [[s' f]| |] eqn:E; auto.
+  - inversion W; subst. destruct (dstep c (fst e) s (snd e)) as [[s' f]| |] eqn:E; eauto.
     replace (pre ++ f :: dseffects c s' r) with ((pre ++ [f]) ++ dseffects c s' r) by (rewrite <- app_assoc; reflexivity).
-    apply IH; auto.
+    apply (IH (k + stray_of f)); auto.
     + eapply dstep_inv; eauto.
     + eapply paid_step; eauto.
 Qed.
@@ -540,7 +578,7 @@ Qed.
 Theorem distributor_paid_once c g h who :
   1 <= g -> dhist_wf h -> NoDup (paid_ids who (dseffects c (dinit g) h)).
 Proof.
-  intros G W. apply (paid_run c who h (dinit g) []); auto.
+  intros G W. apply (paid_run c who h 0 (dinit g) []); auto.
   - apply inv_init; auto.
   - split; [constructor | intros i []].
 Qed.
